@@ -6,6 +6,7 @@ import (
 	"runtime/debug"
 	"sort"
 	"strings"
+	"sync/atomic"
 	"time"
 
 	rt "github.com/uber-go/tally/v4/verifrt"
@@ -46,7 +47,8 @@ type SeqCtx struct {
 	depthDone int
 	caseNo    int64
 	known     map[string]*Violation
-	seenBase  int64 // states counted before the last ResetSeen
+	seenBase  int64        // states counted before the last ResetSeen
+	cur       atomic.Value // the case being executed (curCase), for the hang watchdog
 	// cases that violated during the search but not on their own (see Fail)
 	unreproduced int
 	// OpsPrefix is put in front of the operations of a violation (the parameters a job loops over outside bfs),
@@ -100,6 +102,49 @@ func (c *SeqCtx) State(key string) bool {
 	}
 	c.seen[key] = struct{}{}
 	return true
+}
+
+type curCase struct {
+	ops []string
+	at  time.Time
+}
+
+// Begin / End bracket the execution of one case, so that a case that never returns (a lock left behind, a wait for
+// something that cannot happen, in a build without the controlled scheduler) is reported as a violation with its
+// history instead of being killed with the worker.
+func (c *SeqCtx) Begin(ops []string) {
+	if len(c.OpsPrefix) > 0 {
+		ops = append(append([]string{}, c.OpsPrefix...), ops...)
+	}
+	c.cur.Store(curCase{ops: ops, at: time.Now()})
+}
+
+// End marks the current case as finished.
+func (c *SeqCtx) End() { c.cur.Store(curCase{}) }
+
+// seqHangLimit: a single case takes milliseconds (the longest - 20000 tag sets on one reporter, 140 refused
+// messages - a few seconds).
+const seqHangLimit = 60 * time.Second
+
+// seqHangHook writes the result of a job whose current case hangs and ends the worker (set by main).
+var seqHangHook func(res *seqResult)
+
+func (c *SeqCtx) watchHangs(start time.Time) {
+	for {
+		time.Sleep(time.Second)
+		cc, _ := c.cur.Load().(curCase)
+		if cc.ops == nil || time.Since(cc.at) < seqHangLimit || seqHangHook == nil {
+			continue
+		}
+		c.st.WallS = time.Since(start).Seconds()
+		res := &seqResult{Scenario: c.job.Name, Confirmed: 1}
+		res.Stats = &seqStatsOut{Stats: c.st}
+		res.Violation = &Violation{Property: c.job.Property, Scenario: c.job.Name, Clause: "hang",
+			Detail: fmt.Sprintf("the case did not return within %v (cases take milliseconds): some call is waiting for good - a lock that was never released, a channel nobody serves", seqHangLimit),
+			Ops:    cc.ops, Params: map[string]string{"engine": "seq", "job": c.job.Name}}
+		seqHangHook(res)
+		return
+	}
 }
 
 // ResetSeen forgets the states seen so far (a job that runs several independent searches whose keys cannot meet)
@@ -205,7 +250,9 @@ func runSeqJob(job *SeqJob, shard, nshards int, budget time.Duration) *seqResult
 	if budget > 0 {
 		ctx.deadline = start.Add(budget)
 	}
+	go ctx.watchHangs(start)
 	job.Run(ctx)
+	ctx.End()
 	ctx.st.States = int64(len(ctx.seen)) + ctx.seenBase
 	if ctx.st.States == 0 {
 		ctx.st.States = ctx.st.Executions
@@ -293,7 +340,9 @@ func bfs(ctx *SeqCtx, alphabet []string, depth int, exec func(hist []int) (claus
 					return
 				}
 				nh := append(append(make([]int, 0, len(h)+1), h...), op)
+				ctx.Begin(names(nh))
 				cl, det, key, steps := exec(nh)
+				ctx.End()
 				ctx.Case(steps, true, func() string { return strings.Join(names(nh), " ; ") })
 				if cl != "" {
 					ctx.Fail(cl, det, names(nh))
